@@ -195,6 +195,13 @@ def check(case, obs):
     nonmanifold_edges = [e for e in range(len(edges)) if not edge_link_connected(B, e)]
     for op, ans in zip(case["script"], obs["answers"]):
         nm, a = op[0], op[1:]
+        if nm == "swap_clear":
+            # from here on the answers must agree with the EDITED cell list (faces / edges keep their numbering)
+            C = list(C)
+            C[a[0]], C[a[1]] = C[a[1]], C[a[0]]
+            B = Brute(V, C, faces, edges)
+            B.degenerate = bool(case.get("degenerate"))
+            continue
         if nm.startswith("bad:"):
             continue        # an out-of-range id: whatever it answers or raises, the later answers must still be right
         if nm in ("face_id_t", "face_id_l"):
